@@ -72,6 +72,17 @@ CHECKS = {
    ref='4 (C09)',
    note='trusted: reference command parsers (written from the launchers documented syntax), simulator fakes; launcher binaries are not executed; JSRUN/PRTE not driven',
    technique='deterministic simulation: randomised launcher configuration in the full agent world, reference-parser oracle + fresh-instance differential'),
+
+ 'C05': dict(
+   text='end-to-end world: real TaskManager, tmgr scheduler and stagers, real crosswire forwarders, real Agent_0 proxy callbacks, real agent stagers / scheduler (parent + forked child) / Popen executor, one live pilot; seeded workloads (exit codes, spawn errors, timeouts, multi-rank tasks without MPI launcher, staging directives with missing sources) and faults (exception in the work routine of each of 7 components, file system errors, cancels, message delays, stalled threads); history oracle per accepted task: exactly one final state (Task.state samples + TASK_STATE callback), truth table final state vs. injected outcome (false_done, false_failed, false_canceled, failed_without_reason), no component work thread dies, bounded liveness (final within 60 virtual seconds). Sampling, not proof.',
+   ref='4 (C05)',
+   note='trusted: simulator fakes; pilot launching and task processes are simulated; no message loss is injected (not promised); raptor Master._result_cb path is exercised in C20 only',
+   technique='deterministic simulation with fault injection: end-to-end pipeline, truth-table oracle + bounded liveness'),
+ 'C11': dict(
+   text='end-to-end world with a per-run temp root holding client, resource, session, pilot and task sandboxes; seeded directive lists over all actions (transfer, copy, link, move, tarball), short forms (bare, >, <) and dict forms with/without target, relative/absolute/schema URLs, missing sources, file system faults, task outcomes DONE/FAILED, stage_on_error; every source has unique content; oracle = executable reference resolver of the documented URL rules -> expected (path, content): in_missing / in_wrong_content after agent input staging, out_missing / out_wrong_content for DONE tasks, out_on_failure, fault_not_contained, fault_spread. Sampling, not proof.',
+   ref='4 (C11)',
+   note='trusted: reference resolver; real  / os.link / shutil.move / tarfile run on a temp tree; SAGA / remote back ends not covered; simulated process "produces" declared output files at spawn',
+   technique='deterministic simulation with fault injection: end-to-end staging on temp file trees, reference-resolver oracle'),
 }
 
 NA = [
